@@ -312,6 +312,7 @@ Definition writes_elsewhere : list (string * write) := [
   ("getInputScannerPipe", mkW "scanners" Elem "scanner" false);
   ("getOutputStream", mkW "outputStreams" Elem "out" false);
   ("getOutputStream", mkW "outputStreams" Elem "out" false);
+  ("getline", mkW "fields" Whole "fields" false);
   ("initNativeFuncs", mkW "nativeFuncs" Whole "make([]nativeFunc, len(names))" false);
   ("initNativeFuncs", mkW "nativeFuncs" Elem "nativeFunc{ isVariadic: typ.IsVariadic(), in: in, value: reflect.ValueOf(f), }" false);
   ("joinFields", mkW "csvJoinFieldsBuf" Addr "" false);
